@@ -162,6 +162,8 @@ class Exec:
         self.depth = depth
         self.env = {}
         self.mem = mem if mem is not None else {}
+        self.elem = {}      # the last element store `p[e] = v` (any root, symbolic subscript): forwarded to the loads of exactly
+                            # that element in the straight-line code that follows (dropped at every store, call and branch)
         self.label = label
         d = fn.d
         body = d.get("body")
@@ -227,12 +229,20 @@ class Exec:
                 if dv.get("k") == "var":
                     self.declare(dv, out)
             return "fall"
+        if k in ("if", "for", "while", "do", "forrange", "asm", "switch", "try"):
+            self.elem = {}
         if k == "if":
-            return self.do_if(node, out)
+            r_ = self.do_if(node, out)
+            self.elem = {}
+            return r_
         if k == "for":
-            return self.do_for(node, out)
+            r_ = self.do_for(node, out)
+            self.elem = {}
+            return r_
         if k in ("while", "do"):
-            return self.do_while(node, out)
+            r_ = self.do_while(node, out)
+            self.elem = {}
+            return r_
         if k == "forrange":
             body = []
             self.havoc(node.get("body"))
@@ -1116,6 +1126,7 @@ class Exec:
             return old if e.get("post") else new
         lv = self.lv(a, out)
         out.append({"e": "store", "lv": lv, "op": "+=", "val": delta, "l": e["l"]})
+        self.elem = {}
         return lv
 
     def do_assign(self, e, out):
@@ -1147,6 +1158,8 @@ class Exec:
         out.append({"e": "store", "lv": lv, "op": op, "val": rhs, "l": e["l"], "t": a.get("t", ""),
                     "ct": e.get("ct", "")})
         self.remember(lv, rhs if op == "=" else None)
+        self.elem = {lv: rhs} if (op == "=" and lv[0] == "idx" and isinstance(rhs, tuple) and not sym.contains(rhs, lv)
+                                  and not any(st[0] in ("call", "obj", "unk") for st in sym.subterms(rhs))) else {}
         if op in ("+=", "-=") and lv[0] in ("idx", "fld") and isinstance(rhs, tuple) and not is_float_type(a.get("t", "")) \
                 and not sym.contains(rhs, lv):
             # locals computed from the old content of the location are re-expressed through its new content:
@@ -1181,6 +1194,8 @@ class Exec:
     def load(self, lv):
         if lv in self.mem:
             return self.mem[lv]
+        if lv in self.elem:
+            return self.elem[lv]
         return lv
 
     def forget_rooted(self, ptr):
@@ -1282,6 +1297,7 @@ class Exec:
         return True
 
     def emit_call(self, e, name, args, out, this=None, array=None):
+        self.elem = {}
         usr = e.get("cusr")
         line = e["l"]
         # std::string temporaries built from literals: the value is the literal
